@@ -108,6 +108,9 @@ func driveC07(t *testing.T, out *vEmitter) {
 		{{Name: "X-Id", Values: []options.HeaderValue{claim("user"), claim("email"), secretV("tail")}}, {Name: "x-id", PreserveRequestValue: true, Values: []options.HeaderValue{claim("preferred_username")}}},
 		{{Name: "X-Times", Values: []options.HeaderValue{claim("created_at"), claim("expires_on")}}, {Name: "X-Unknown", Values: []options.HeaderValue{claim("no_such_claim")}}, {Name: "X-Tokens", Values: []options.HeaderValue{claim("access_token"), claim("refresh_token")}}},
 		{{Name: "X-Forwarded-User", Values: []options.HeaderValue{claim("user")}}, {Name: "X-Forwarded-User", PreserveRequestValue: true, Values: []options.HeaderValue{claim("email")}}},
+		// a preserved entry FIRST, entries to strip after it (and one more preserved in between)
+		{{Name: "X-Kept-First", PreserveRequestValue: true, Values: []options.HeaderValue{claim("email")}}, {Name: "X-After", Values: []options.HeaderValue{claim("user")}},
+			{Name: "X-Kept-Mid", PreserveRequestValue: true, Values: nil}, {Name: "X-After-Groups", Values: []options.HeaderValue{claim("groups")}}, {Name: "X-After-Empty", Values: []options.HeaderValue{claim("no_such_claim")}}},
 		// an entry without any value: the name is only to be stripped
 		{{Name: "X-Forwarded-Roles", Values: nil}, {Name: "X-Forwarded-User", Values: []options.HeaderValue{claim("user")}}, {Name: "X-Kept", PreserveRequestValue: true, Values: nil}},
 	}
